@@ -98,6 +98,40 @@ def rand_int(rng):
     return rng.choice([10 ** 4299, 10 ** 4300 - 1, 10 ** 4300, -(10 ** 4299), -(10 ** 4300)])
 
 
+class Tagged(int):
+    """an integer whose text form is not its decimal value (what bool and user enums are)"""
+
+    def __str__(self):
+        return f"<{int(self)}>"
+
+    __repr__ = __str__
+
+    def __format__(self, _spec):
+        return str(self)
+
+
+def dress(value, how):
+    """the same integer as an instance of an int subclass: bool, an IntEnum member, an int with its own str()"""
+    import enum
+    if how == "bool" and value in (0, 1):
+        return bool(value)
+    if how == "enum":
+        return enum.IntEnum("Dressed", {"V": value}).V
+    if how == "tagged":
+        return Tagged(value)
+    if how == "const":
+        from mysensors.const_22 import MessageType
+        try:
+            return MessageType(value)
+        except ValueError:
+            return value
+    return value
+
+
+def dressed(fields, hows):
+    return [dress(f, h) for f, h in zip(fields, hows)]
+
+
 def gen_line(rng):
     r = rng.random()
     if r < 0.04:
@@ -262,6 +296,18 @@ def run(tier, seed, driver):
     for big in [10 ** 4299, 10 ** 4300 - 1, 10 ** 4300, -(10 ** 4299), -(10 ** 4300)]:
         msgs.append(([1, 2, big, 0, 4], "big"))
     msgs += [([1, 2, 3, 0, 4], p) for p in ["", "a", "a b", "x　y", ";", "a;b", "a\n", "a ", "\U0001F600"]]
+    # header fields given as instances of int subclasses (ack=True, enum members): the same integers
+    hows_of = {}
+    for k in range(n // 8):
+        fields = [rand_int(rng) if rng.random() < 0.6 else rng.randrange(0, 5) for _ in range(5)]
+        if rng.random() < 0.5:
+            fields[3] = rng.randrange(2)
+        hows = [rng.choice(["bool", "enum", "tagged", "const", "plain"]) for _ in range(5)]
+        if k < 4:
+            fields, hows = [1, 2, 1, k % 2, 2], ["plain", "plain", ["plain", "const"][k // 2], "bool", "plain"]
+        hows_of[len(msgs)] = hows
+        msgs.append((dressed(fields, hows), rand_payload(rng) if k >= 4 else "on"))
+    plain = lambda fs: [int(f) for f in fs]
     kws = []
     for fields, payload in msgs[: n // 4]:
         kw = {}
@@ -282,7 +328,7 @@ def run(tier, seed, driver):
         ops.append("DEC " + enc_str(l))
         impl.append(real_decode(l))
     for fields, payload in msgs:
-        ops.append("ENC " + " ".join(map(dec, fields)) + " " + enc_str(payload))
+        ops.append("ENC " + " ".join(map(dec, plain(fields))) + " " + enc_str(payload))
         impl.append(real_encode(fields, payload))
     for fields, payload, kw in kws:
         w = " ".join(f"{KW_WIRE[KW_NAMES.index(k)]}=" + (enc_str(v) if k == "payload" else dec(v))
@@ -321,12 +367,19 @@ def run(tier, seed, driver):
         if f:
             res.oracle_failures.append({"key": {"kind": "canonical", "what": f}, "what": f,
                                         "replay": {"op": "decode", "line": l}})
-    for fields, payload in msgs:
+    for k, (fields, payload) in enumerate(msgs):
         f = oracle_roundtrip(fields, payload)
+        if f is None and k in hows_of and all(within_limit(x) for x in fields):
+            # copy() of a message built from such fields is an equal message
+            f = oracle_copy(fields, payload, {})
+        if k in hows_of:
+            res.count("encode:int-subclass-fields")
         if f:
-            res.oracle_failures.append({"key": {"kind": "roundtrip", "what": f.split("=")[0]}, "what": f,
-                                        "replay": {"op": "encode", "fields": [dec(x) for x in fields],
-                                                   "payload": payload}})
+            if k in hows_of:
+                f += f" (header fields given as {hows_of[k]})"
+            res.oracle_failures.append({"key": {"kind": "roundtrip", "what": f.split("=")[0].split(" (")[0]}, "what": f,
+                                        "replay": {"op": "encode", "fields": [dec(x) for x in plain(fields)],
+                                                   "payload": payload, "dress": hows_of.get(k)}})
     for fields, payload, kw in kws:
         f = oracle_copy(fields, payload, kw)
         if f:
@@ -348,7 +401,11 @@ def replay(payload):
         print("model:", common.Driver().run(["DEC " + enc_str(r["line"])]))
     elif r.get("op") == "encode":
         fields = [int(x) for x in r["fields"]]
-        print("impl:", real_encode(fields, r["payload"]), "oracle:", oracle_roundtrip(fields, r["payload"]))
+        if r.get("dress"):
+            fields = dressed(fields, r["dress"])
+        verdict = oracle_roundtrip(fields, r["payload"]) or (oracle_copy(fields, r["payload"], {}) if r.get("dress") else None)
+        print("impl:", real_encode(fields, r["payload"]), "oracle:", verdict)
+        return 1 if verdict else 0
     elif r.get("op") == "copy":
         fields = [int(x) for x in r["fields"]]
         kw = {k: (v if k == "payload" else int(v)) for k, v in r["kw"].items()}
